@@ -454,6 +454,8 @@ def v_cmp(op, a, b):
             return op == "NotEq"  # scalar vs container: never equal
         raise Unsupported(f"comparison {op} on containers with symbolic content")
     if isinstance(a, SymSeq) or isinstance(b, SymSeq):
+        if op in ("Eq", "NotEq") and (is_scalar(a) or is_scalar(b)):
+            return op == "NotEq"
         raise Unsupported("comparison of symbolic sequences")
     ka, kb = kind_of(a), kind_of(b)
     if concrete(a) and concrete(b):
@@ -571,7 +573,23 @@ def seq_of(v):
             r = v_ite(mk(i.z == k), items[k], r)
         return r
 
-    return SymSeq(len(items), getter, "tuple")
+    ps = None
+    if all(is_scalar(x) and kind_of(x) in ("int", "real", "bool") for x in items):
+        prefix = [0]
+        for x in items:
+            prefix.append(v_add(prefix[-1], x))
+
+        def ps(k):
+            if isinstance(k, int):
+                return prefix[max(0, min(k, len(items)))]
+            r = prefix[-1]
+            for j in range(len(items) - 1, -1, -1):
+                r = v_ite(mk(k.z <= j), prefix[j], r)
+            return r
+
+    s = SymSeq(len(items), getter, "tuple", psum=ps)
+    s.pytype = "list" if isinstance(v, list) else "tuple"
+    return s
 
 
 def v_ite(c, a, b):
@@ -604,7 +622,13 @@ def v_ite(c, a, b):
         return tuple(r) if isinstance(a, tuple) else r
     if isinstance(a, (tuple, list, SymSeq)) and isinstance(b, (tuple, list, SymSeq)):
         sa, sb = seq_of(a), seq_of(b)
-        return SymSeq(v_ite(c, sa.length, sb.length), lambda i: v_ite(c, sa.get(i), sb.get(i)), "ite")
+        ps = None
+        if sa.psum is not None and sb.psum is not None:
+            def ps(k):
+                return v_ite(c, sa.psum(k), sb.psum(k))
+        r = SymSeq(v_ite(c, sa.length, sb.length), lambda i: v_ite(c, sa.get(i), sb.get(i)), "ite", psum=ps)
+        r.pytype = getattr(sa, "pytype", "tuple")
+        return r
     if isinstance(a, dict) and isinstance(b, dict) and set(a) == set(b):
         return {k: v_ite(c, a[k], b[k]) for k in a}
     raise Unsupported(f"merge of {type(a).__name__} and {type(b).__name__}")
